@@ -609,6 +609,14 @@ func (w *walker) list(ps reflect.Value, gf goField, methods []reflect.Method, c 
 					w.rep.Skipped["key-value:"+err.Error()]++
 					continue
 				}
+				// a caller may look at the path of the wildcard node first and refine it afterwards: resolving
+				// in between must not freeze the keys
+				if w.o.Choose(cchain+"."+bm.Name+"!resolve-first", 2) == 1 {
+					if psn, ok := r.Interface().(ygot.PathStruct); ok {
+						_, _, _ = ygot.ResolvePath(psn)
+						classes = append(classes, "builder:resolved-before-with-key")
+					}
+				}
 				r = r.Method(bm.Index).Call([]reflect.Value{kv.v})[0]
 				el.Keys[key] = kv.s
 				delete(el.Alt, key)
